@@ -486,6 +486,13 @@ func (c *c10CoordH) recv(pkt channeltypes.Packet, ph clienttypes.Height) (ack ib
 	if proofHeight.RevisionHeight != ph.RevisionHeight {
 		c.t.Fatalf("coordinator fixture: the proof was taken at height %d, the op line says ph=%d", proofHeight.RevisionHeight, ph.RevisionHeight)
 	}
+	// fixture self-check: the same proof with other packet data must be refused by ibc core (the proofs ARE verified)
+	forged := packet
+	forged.Data = append(append([]byte(nil), packet.Data...), ' ')
+	if _, ferr := c.hub.SendMsgs(channeltypes.NewMsgRecvPacket(forged, proof, proofHeight, c.hub.SenderAccount.GetAddress().String())); ferr == nil ||
+		!strings.Contains(ferr.Error(), "couldn't verify counterparty packet commitment") {
+		c.t.Fatalf("coordinator fixture: MsgRecvPacket with forged packet data and the real proof: %v", ferr)
+	}
 	msg := channeltypes.NewMsgRecvPacket(packet, proof, proofHeight, c.hub.SenderAccount.GetAddress().String())
 	c.refresh()
 	c.dBefore = c.digest()
@@ -569,11 +576,19 @@ func c10CoordRunTrace(t *testing.T, r *Run, lines []string) {
 			continue
 		}
 		c.dBefore, c.dAfter = "", ""
+		completeBefore := map[int]bool{}
+		for k, v := range h.complete {
+			completeBefore[k] = v
+		}
+		prev := mon.prev
 		res, rc := c.exec(op)
 		c.refresh()
 		s := h.snapshot()
 		r.Emit(op, s.render(res))
 		mon.check(op, res, rc, s, c.dBefore, c.dAfter)
+		if b := c.branch(f, res, rc, prev, s, completeBefore); b != "" {
+			r.Hit("directed/coord/" + b)
+		}
 		r.Hit("coord/" + f[0] + "/" + strings.SplitN(res, ":", 2)[0])
 		if strings.HasPrefix(res, "err:") {
 			r.Hit("coord/ack/" + res)
@@ -588,8 +603,64 @@ func c10CoordRunTrace(t *testing.T, r *Run, lines []string) {
 	c10CoordDebug("trace of %d ops took %v", len(lines), time.Since(t0))
 }
 
+// branch names what an op of a coordinator trace exercised, from the op, its outcome and the hub's state
+// before / after it (never from what the trace was written to exercise)
+func (c *c10CoordH) branch(f []string, res string, rc *c10Recv, prev, cur *c10Snap, completeBefore map[int]bool) string {
+	m := parseKV(f)
+	switch f[0] {
+	case "chopen":
+		ri := ridx(f[1])
+		if prev == nil || ri >= len(prev.Ras) || ri >= len(cur.Ras) {
+			return ""
+		}
+		before, after := prev.Ras[ri].Chan, cur.Ras[ri].Chan
+		switch {
+		case m["via"] == "ack" && res == "ok" && before == "-" && after != "-":
+			return "handshake-ack" // canonical channel recorded
+		case m["via"] == "ack" && res == "err" && before != "-" && after == before:
+			return "handshake-ack-refused"
+		case m["via"] == "nested" && res == "ok" && after == before:
+			return "handshake-nested" // opened, nothing recorded
+		case m["via"] == "try" && res == "ok" && after == before:
+			return "handshake-try"
+		}
+	case "send":
+		ch, ok := c.h.chanByTok(f[1])
+		switch {
+		case !ok:
+		case ch.kind == 'c' && !completeBefore[ch.r] && res == "err":
+			return "ics20-before-handshake-out"
+		case ch.kind == 'c' && completeBefore[ch.r] && res == "ok":
+			return "ics20-after-out"
+		case ch.kind == 's' && res == "err":
+			return "ics20-non-canonical-out"
+		}
+	case "recv":
+		if rc == nil {
+			return ""
+		}
+		errAck := !rc.success && !rc.isNil && strings.HasPrefix(res, "err:")
+		switch {
+		case rc.ch.kind == 's' && errAck:
+			return "packet-non-canonical-in"
+		case rc.ch.kind != 'c':
+		case rc.kind == "ft" && !completeBefore[rc.ch.r] && errAck:
+			return "ics20-before-handshake-in"
+		case rc.kind == "ft" && completeBefore[rc.ch.r] && (rc.isNil || rc.success):
+			return "ics20-after-in"
+		case rc.kind == "gb" && !completeBefore[rc.ch.r] && rc.success && cur.Ras[rc.ch.r].Tph == atou(m["ph"]):
+			return "genesis-bridge-real-proof"
+		case rc.kind == "gb" && !completeBefore[rc.ch.r] && errAck:
+			return "genesis-bridge-mismatch"
+		case rc.kind == "gb" && completeBefore[rc.ch.r] && errAck:
+			return "repeated-handshake"
+		}
+	}
+	return ""
+}
+
 type c10CoordTrace struct {
-	hits  []string
+	name  string
 	lines []string
 }
 
@@ -599,6 +670,10 @@ func c10CoordDirected() []c10CoordTrace {
 	gi2 := "ck=1 pf=1 nb=1 nd=11 ne=18 sup=30 accs=1:10;2:20 sealed=0"
 	hs := func(ch string, ph int) string {
 		return fmt.Sprintf("recv %s ph=%d kind=gb %s md=1/1:0,11:18/1/1 mdshape=ok tr=1/30/1/0/1", ch, ph, gi2)
+	}
+	gi3 := "ck=2 pf=2 nb=2 nd=12 ne=18 sup=7 accs=3:7 sealed=0"
+	hs3 := func(ch string, ph int) string {
+		return fmt.Sprintf("recv %s ph=%d kind=gb %s md=2/2:0,12:18/1/1 mdshape=ok tr=2/7/1/0/1", ch, ph, gi3)
 	}
 	ft := func(ch string, ph int) string { return fmt.Sprintf("recv %s ph=%d kind=ft tr=1/5/1/1/1", ch, ph) }
 	// a channel over the canonical client that the ante hook never saw (MsgChannelOpenAck nested in authz.MsgExec /
@@ -632,8 +707,7 @@ func c10CoordDirected() []c10CoordTrace {
 		}
 	}
 	return []c10CoordTrace{
-		{hits: []string{"coord/handshake-ack", "coord/ics20-before-handshake-out", "coord/ics20-before-handshake-in", "coord/genesis-bridge-real-proof",
-			"coord/ics20-after-out", "coord/ics20-after-in", "coord/repeated-handshake"},
+		{name: "ack",
 			lines: []string{reset,
 				"create r0 " + gi2,
 				"seq r0",
@@ -655,12 +729,31 @@ func c10CoordDirected() []c10CoordTrace {
 				"send c0",
 				ft("c0", 110),
 			}},
-		{hits: []string{"coord/handshake-nested", "coord/handshake-ack", "coord/ics20-before-handshake-out", "coord/ics20-before-handshake-in",
-			"coord/genesis-bridge-real-proof", "coord/ics20-after-out", "coord/ics20-after-in", "coord/repeated-handshake"},
-			lines: second("nested")},
-		{hits: []string{"coord/handshake-try", "coord/handshake-ack", "coord/ics20-before-handshake-out", "coord/ics20-before-handshake-in",
-			"coord/genesis-bridge-real-proof", "coord/ics20-after-out", "coord/ics20-after-in", "coord/repeated-handshake"},
-			lines: second("try")},
+		{name: "nested", lines: second("nested")},
+		{name: "try", lines: second("try")},
+		{name: "two-rollapps", // two rollapp chains: the handshake packet of one rollapp on the canonical channel of the other opens nothing
+			lines: []string{reset,
+				"create r0 " + gi2,
+				"create r1 " + gi3,
+				"seq r0",
+				"seq r1",
+				"canon r0",
+				"canon r1",
+				"chopen r1 via=ack",
+				"chopen r0 via=ack",
+				hs("c0", 40), // r0's genesis info on r1's canonical channel
+				hs3("c1", 40),
+				"send c0",
+				"send c1",
+				hs("c1", 50),
+				"send c1",
+				"send c0",
+				ft("c0", 50),
+				hs3("c0", 60),
+				"send c0",
+				ft("c0", 70),
+				ft("c1", 60),
+			}},
 	}
 }
 
